@@ -103,7 +103,8 @@ func C19(c *fw.Ctx) {
 		"31 kinds directly, inside INCLUDEd files, inside pasted and unused MACRO bodies; the rest drawn from the corpus, preferring includes and "+
 		"macros), each built through kit.NewJapi(path, option) and through core.NewJApiCore(file, option).BuildCatalog(); which kinds a project "+
 		"contains is taken from the scan-phase directive tree of the build without the option; plus 25 documents in which the banned "+
-		"directive has a fault of its own (missing file, bad parameter, missing body, duplicate ...) - the ban must win; plus sequences of builds that reuse Option VALUES "+
+		"directive has a fault of its own (missing file, bad parameter, missing body, duplicate ...) - the ban must win; plus every kind x 22 positions a keyword line can "+
+		"stand in (after a description text, an annotation, a body, a comment, a parenthesis ...) x root file / included file / MACRO body; plus sequences of builds that reuse Option VALUES "+
 		"([A], [A,B], [A], [], [B], [B,A], [B] in one process): equal options must give equal results whatever other builds got; distinct = distinct (project, configuration, API); "+
 		"non-trivial = every case", nProj))
 	c.Assume("presence of a kind is read from the phase-snapshot hook of the unrestricted build (INCLUDE: from the file-access hook)")
@@ -361,6 +362,85 @@ func C19(c *fw.Ctx) {
 			}
 		}
 	})
+	// Every kind in every position a keyword can stand in: after a description text, an annotation, a body, a comment, a parenthesis
+	// ... - directly in the root file, in an included file and in the body of a MACRO. The text before the keyword line is
+	// well-formed, so the banned keyword is the first thing to object to.
+	type placed struct {
+		kind, place, form string
+		file              string
+		line              int
+	}
+	var placedCases []placed
+	c.RunJobs(pool, func(emit func(*proto.Job)) {
+		for _, pl := range keywordPlacements() {
+			for _, k := range allKinds {
+				for form := 0; form < 3; form++ {
+					text := pl.before + pl.indent + keywordLine[k] + "\n"
+					line := strings.Count(pl.before, "\n") + 1
+					if strings.Contains(pl.before, "\r\n") {
+						text = pl.before + pl.indent + keywordLine[k] + "\r\n"
+					}
+					files := map[string][]byte{}
+					pc := placed{kind: k, place: pl.name, file: "root.jst", line: line}
+					switch form {
+					case 0:
+						pc.form = "root-file"
+						files["root.jst"] = []byte(text)
+					case 1:
+						// the same text without its JSIGHT line as an included file
+						pc.form = "included-file"
+						rest := text[strings.Index(text, "\n")+1:]
+						files["root.jst"] = []byte("JSIGHT 0.3\nINCLUDE inc/piece.jst\n")
+						files["inc/piece.jst"] = []byte(rest)
+						pc.file, pc.line = "inc/piece.jst", line-1
+						if k == "INCLUDE" {
+							continue // INCLUDE would itself be banned in the root file
+						}
+					case 2:
+						// ... and as the body of a macro
+						pc.form = "macro-body"
+						if strings.Contains(pl.before, "\r\n") || k == "MACRO" || strings.Contains(pl.before, "TAG") || strings.Contains(pl.before, "INFO") || strings.Contains(pl.before, "ENUM") {
+							continue // root-level directives have no place in a macro body: the first fault would be theirs
+						}
+						rest := text[strings.Index(text, "\n")+1:]
+						files["root.jst"] = []byte("JSIGHT 0.3\nMACRO @holder\n(\n" + rest)
+						pc.line = line + 2
+					}
+					// a kind that the text before the line uses too is met there first (scan order: root file, the included file at its INCLUDE)
+					pc.file, pc.line = firstLineOfKind(files, k)
+					id := fmt.Sprintf("placed/%d", len(placedCases))
+					placedCases = append(placedCases, pc)
+					emit(&proto.Job{ID: id, Root: "root.jst", Files: files, Banned: []string{k}, ViaCore: len(placedCases)%2 == 0})
+				}
+			}
+		}
+	}, func(j *proto.Job, res *proto.Result) {
+		if workerProblem(c, res) {
+			return
+		}
+		var i int
+		fmt.Sscan(strings.TrimPrefix(j.ID, "placed/"), &i)
+		pc := placedCases[i]
+		c.Count(j.ID, true)
+		c.Inc("cases", "banned-keyword-placed:"+pc.form, 1)
+		c.Inc("placements", pc.place, 1)
+		rp := replayOf(j, res)
+		if sig, what := crashSig(res); sig != "" {
+			c.Violate(sig, what, rp)
+			return
+		}
+		if res.Accepted || res.Err == nil {
+			c.Violate("ban:escaped:"+pc.kind, fmt.Sprintf("a banned %s %s (%s) was accepted", pc.kind, pc.place, pc.form), rp)
+			return
+		}
+		if want := "the directive is not allowed (" + pc.kind + ")"; !strings.HasPrefix(res.Err.Msg, want) {
+			c.Violate("ban:wrong-error:placed-"+pc.kind, fmt.Sprintf("banned %s %s (%s, %s:%d): expected %q, got %q at %s:%d", pc.kind, pc.place, pc.form, pc.file, pc.line, want, res.Err.Msg, relName(res, res.Err.File), res.Err.Line), rp)
+			return
+		}
+		if res.Err.Line != pc.line || relName(res, res.Err.File) != pc.file {
+			c.Violate("ban:location:"+pc.kind, fmt.Sprintf("banned %s %s is on %s:%d, error says %s:%d", pc.kind, pc.place, pc.file, pc.line, relName(res, res.Err.File), res.Err.Line), rp)
+		}
+	})
 	// Option values that are reused. A caller may keep its options in variables and hand them to many builds; a build configured with
 	// the options (A) must behave the same before and after an unrelated build got (A, B). One job = one worker process = one
 	// sequence of builds with process-wide Option values: [A], [A,B], [A], [], [B], [B,A], [B].
@@ -439,4 +519,35 @@ func C19(c *fw.Ctx) {
 		c.Inconclusive(fmt.Sprintf("kinds never banned while present: %v", missing))
 	}
 	c.Finish()
+}
+
+// firstLineOfKind: the first line, in the order the builder reads the project (root.jst, inc/piece.jst where the root includes it),
+// that begins with a keyword of the given kind.
+func firstLineOfKind(files map[string][]byte, kind string) (string, int) {
+	var walk func(name string) (string, int)
+	walk = func(name string) (string, int) {
+		text := strings.ReplaceAll(string(files[name]), "\r\n", "\n")
+		for i, ln := range strings.Split(text, "\n") {
+			f := strings.Fields(ln)
+			if len(f) == 0 {
+				continue
+			}
+			k := f[0]
+			if len(k) == 3 && k[0] >= '1' && k[0] <= '5' && k[1] >= '0' && k[1] <= '9' {
+				k = "HTTP-response-code"
+			}
+			if k == kind {
+				return name, i + 1
+			}
+			if k == "INCLUDE" && len(f) > 1 {
+				if _, ok := files[f[1]]; ok {
+					if fn, l := walk(f[1]); l != 0 {
+						return fn, l
+					}
+				}
+			}
+		}
+		return "", 0
+	}
+	return walk("root.jst")
 }
